@@ -178,22 +178,31 @@ func c16Run(w c16Workload, info *vlib.Info) *vlib.Failure {
 }
 
 // c16Readers: one validated catalog serialised and read from many goroutines.
+// The goroutines start on a catalog that has never been serialised (the first
+// serialisation is concurrent too); the expected bytes come from a second
+// JApi of the same text, serialised alone.
 func c16Readers(src string, info *vlib.Info) *vlib.Failure {
+	ref := kit.NewJApiFromFile(fs.NewFile("root.jst", []byte(src)))
+	if je := ref.ValidateJAPI(); je != nil {
+		return nil
+	}
+	want, _ := ref.ToJson()
+	wantI, _ := ref.ToJsonIndent()
+	title := ref.Title()
 	j := kit.NewJApiFromFile(fs.NewFile("root.jst", []byte(src)))
 	if je := j.ValidateJAPI(); je != nil {
-		return nil
+		return vlib.Failf("concurrent-read-differs", "the same text is accepted once and rejected once\n--- source:\n%s", trunc(src, 1500))
 	}
 	info.NonTrivial = true
 	info.Class("concurrent-readers")
-	want, _ := j.ToJson()
-	wantI, _ := j.ToJsonIndent()
-	title := j.Title()
 	var wg sync.WaitGroup
 	errs := make(chan string, 64)
+	start := make(chan struct{})
 	for g := 0; g < 8; g++ {
 		wg.Add(1)
 		go func(g int) {
 			defer wg.Done()
+			<-start
 			for k := 0; k < 4; k++ {
 				switch (g + k) % 3 {
 				case 0:
@@ -212,9 +221,16 @@ func c16Readers(src string, info *vlib.Info) *vlib.Failure {
 			}
 		}(g)
 	}
+	close(start)
 	wg.Wait()
 	close(errs)
 	for e := range errs {
+		if strings.Contains(src, "regex") {
+			// examples derived from regex user types differ between two JApi objects (known finding)
+			if b, err := j.ToJson(); err == nil && vlib.MaskExamples(string(b)) == vlib.MaskExamples(string(want)) {
+				return vlib.Failf(vlib.KeyRegexExample, "results differ only in regex-derived examples")
+			}
+		}
 		return vlib.Failf("concurrent-read-differs", "%s\n--- source:\n%s", e, trunc(src, 1500))
 	}
 	return nil
